@@ -53,20 +53,37 @@ func bytesStr(r json.RawMessage) string {
 	return string(b)
 }
 
-func build(ps []string, variant int) *algz.Trie {
+// build follows a build schedule of the specification: a sequence of batches of pattern indices (0 = the
+// empty pattern), with BuildFailureLinks after every batch.
+func build(ps []string, sched [][]int) *algz.Trie {
 	t := new(algz.Trie)
-	order := append([]string{}, ps...)
-	if variant%2 == 1 { // reverse insertion order, with a duplicate and an empty pattern
-		for i, j := 0, len(order)-1; i < j; i, j = i+1, j-1 {
-			order[i], order[j] = order[j], order[i]
+	for _, batch := range sched {
+		for _, i := range batch {
+			if i == 0 {
+				t.Insert("")
+			} else {
+				t.Insert(ps[i-1])
+			}
 		}
-		order = append(order, order[0], "")
+		t.BuildFailureLinks()
 	}
-	for _, p := range order {
-		t.Insert(p)
-	}
-	t.BuildFailureLinks()
 	return t
+}
+
+func run(c *core.Case, st *core.CaseStats, seed int64) {
+	var scheds [][][]int
+	json.Unmarshal(c.X, &scheds)
+	if len(scheds) == 0 {
+		n := len(c.A)
+		all := make([]int, n)
+		for i := range all {
+			all[i] = i + 1
+		}
+		scheds = [][][]int{{all}}
+	}
+	for k, sc := range scheds {
+		runSched(c, st, seed+int64(k), sc)
+	}
 }
 
 func sortedCopy(x []string) []string {
@@ -87,11 +104,11 @@ func eq(a, b []string) bool {
 	return true
 }
 
-func run(c *core.Case, st *core.CaseStats, seed int64) {
+func runSched(c *core.Case, st *core.CaseStats, seed int64, sched [][]int) {
 	ps := pats(c)
 	in := bytesStr(c.S)
 	variant := int(seed) + st.Cases
-	input := map[string]interface{}{"patterns": ps, "input": in, "input_bytes": []byte(in), "variant": variant % 2}
+	input := map[string]interface{}{"patterns": ps, "input": in, "input_bytes": []byte(in), "build_schedule": sched}
 	rep := func(fn, kind string, exp, act interface{}) {
 		st.Add(core.Mismatch{Fn: fn, Kind: kind, Case: c, Input: input, Expected: exp, Actual: act})
 	}
@@ -109,7 +126,7 @@ func run(c *core.Case, st *core.CaseStats, seed int64) {
 		return true
 	}
 	var t *algz.Trie
-	if !guard("Build", func() { t = build(ps, variant) }) {
+	if !guard("Build", func() { t = build(ps, sched) }) {
 		return
 	}
 	if c.Fn == "key" {
